@@ -327,23 +327,48 @@ def partitions(run, F):
 
 
 def pct_of(run, F):
+    import aggrules
+    from algebra import parse_poly, defs_of, Poly
     fn = F.one('AggValidExt::vpercentile_of')
-    t = N.tbl(fn)
-    s = src(fn.hir)
-    ok = 'let score = if score.is_none() { return f64::NAN; } else { score.unwrap() };' in s
-    run.ob('NULL.first-test', fn, 'vpercentile_of: null score -> null', ok, fn.loc(), s[80:200])
-    rows = {(frozenset(c for c in cs if 'method' in c or 'exact' in c or 'total' in c), l) for cs, l, ef in t}
+    t, env = aggrules.rtbl(fn)
+    # a null score returns null before anything is counted
+    nullrows = [(cs, l, ef) for cs, l, ef in t if '!VALID(score)' in cs]
+    ok = len(nullrows) == 1 and nullrows[0][1] == 'NULL' and \
+        not any('for_each' in e for e in nullrows[0][2]) and \
+        all('VALID(score)' in cs for cs, l, ef in t if '!VALID(score)' not in cs)
+    run.ob('NULL.first-test', fn, 'vpercentile_of: null score -> null', ok, fn.loc(),
+           'rows on a null score: %s' % [(sorted(cs), l) for cs, l, ef in nullrows])
+    LT, EQ, n = (Poly.atom(('sym', x)) for x in ('C[(a0 < score)]', 'C[(a0 == score)]', 'n'))
+    half = Poly.const(1) * Poly({(): __import__('fractions').Fraction(1, 2)})
+    one = Poly.const(1)
     want = {
-        (frozenset({'(0 == total_count)'}), 'NULL'),
-        (frozenset({'(0 != total_count)', 'method is PercentileOfMethod::Strict'}), '(less_than_count / total_count)'),
-        (frozenset({'(0 != total_count)', 'method is PercentileOfMethod::Weak'}), '(less_equal_count / total_count)'),
-        (frozenset({'(0 != total_count)', 'method is PercentileOfMethod::Rank', '(exact_match_count <= 1)'}),
-         '((exact_match_count + less_than_count) / total_count)'),
-        (frozenset({'(0 != total_count)', 'method is PercentileOfMethod::Rank', '(1 < exact_match_count)'}),
-         '(((rank_end + rank_start) * 0.5) / total_count)'),
+        ('Strict', None): LT * n.inv(),
+        ('Weak', None): (LT + EQ) * n.inv(),
+        ('Rank', False): (LT + EQ) * n.inv(),
+        # average of the ranks LT+1 .. LT+EQ
+        ('Rank', True): ((LT + one) + (LT + EQ)) * half * n.inv(),
     }
-    lets = ('let less_equal_count = (less_than_count + exact_match_count);' in s and
-            'let rank_start = (less_than_count + 1);' in s and
-            'let rank_end = (rank_start + (exact_match_count - 1));' in s)
-    run.ob('AGG.table', fn, 'percentile-of proportions (rank / weak / strict)', rows == want and lets,
-           fn.loc(), 'rows %s; helper lets as defined: %s' % (sorted((sorted(c), l) for c, l in rows), lets))
+    got = {}
+    bad = []
+    for cs, leaf, ef in t:
+        if '!VALID(score)' in cs:
+            continue
+        meth = [c.split('::')[-1] for c in cs if c.startswith('method is ')]
+        if '(0 == n)' in cs:
+            if leaf != 'NULL':
+                bad.append((sorted(cs), leaf))
+            continue
+        if '(0 != n)' not in cs or len(meth) != 1:
+            bad.append((sorted(cs), leaf))
+            continue
+        tie = None
+        if meth[0] == 'Rank':
+            tie = '(1 < C[(a0 == score)])' in cs
+            if not tie and '(C[(a0 == score)] <= 1)' not in cs:
+                bad.append((sorted(cs), leaf))
+        got[(meth[0], tie)] = parse_poly(leaf, defs_of(ef))
+    okp = not bad and set(got) == set(want) and all(got[k] == want[k] for k in want)
+    run.ob('AGG.table', fn, 'percentile-of proportions (rank / weak / strict)', okp, fn.loc(),
+           '; '.join('%s%s = %s' % (k[0], '' if k[1] is None else ('[ties]' if k[1] else '[no tie]'),
+                                    v.show()) for k, v in sorted(got.items(), key=str)) +
+           (' ; unexpected rows %s' % bad if bad else ''))
